@@ -254,7 +254,7 @@ def run(p, led, tier):
             if isinstance(n, ast.Call):
                 d = dotted(n.func) or ""
                 head = d.split(".")[0]
-                if d in DANGEROUS or head in DANGEROUS_MODULES and head in g.module.imports or (d == "getattr" and len(n.args) >= 2 and not isinstance(n.args[1], ast.Constant)):
+                if d in DANGEROUS or head in DANGEROUS_MODULES and head in g.module.imports or (d == "getattr" and len(n.args) >= 2 and not isinstance(n.args[1], ast.Constant) and not res.closed_name(g, n.args[1])):
                     n_danger += 1
                     led.fail("C01-R2", f"{g.qual} ▸ {short(n, 50)}", where(g, n), "code-execution / reflection primitive reachable from the evaluator's entry points")
     led.ok("C01-R2", "Mitochondria ▸ dangerous primitives reachable from the entry points", M, f"{len(reach)} reachable function(s) scanned: {n_danger} call(s) of eval/exec/compile/__import__/getattr(var)/os.*/…")
@@ -285,9 +285,19 @@ def run(p, led, tier):
 
     # ---------------- R7 length guard & who-may-call
     cfgm = cfg_of(met, led)
-    pathway_fns = [m for m in mito.methods.values() if any(isinstance(n, ast.Call) and dotted(n.func) in ("ast.parse", "ast.literal_eval", "json.loads") for n in walk_no_nested(m.node))]
+    # pathway functions by role: the methods metabolize dispatches to (directly or through a handler table) that reach a parser
+    PARSERS = ("ast.parse", "ast.literal_eval", "json.loads")
+
+    def parses(f):
+        return any(isinstance(n, ast.Call) and dotted(n.func) in PARSERS for n in walk_no_nested(f.node))
+    pathway_fns = []
+    for n in walk_no_nested(met.node):
+        if isinstance(n, ast.Call):
+            for g in res.resolve_call(met, n):
+                if g.cls is mito and g is not met and g not in pathway_fns and any(parses(h) for h in res.reachable_from(g)):
+                    pathway_fns.append(g)
     if len(pathway_fns) < 3:
-        raise AnchorError(f"only {len(pathway_fns)} pathway function(s) found")
+        raise AnchorError(f"only {len(pathway_fns)} pathway function(s) found below metabolize ({[g.name for g in pathway_fns]})")
     for pf in pathway_fns:
         for caller, call in res.callers_of(pf):
             key = f"{caller.qual} ▸ {short(call, 50)}"
@@ -301,7 +311,7 @@ def run(p, led, tier):
                 led.fail("C01-R7", key, where(caller, call), "pathway entered without the expression-length guard having passed")
     for caller, call in res.callers_of(walker):
         key = f"{caller.qual} ▸ calls the walker"
-        if caller is walker or caller in pathway_fns:
+        if caller.key in W.cluster() or caller in pathway_fns:
             continue
         led.fail("C01-R7", key, where(caller, call), "the walker is entered from outside the pathway functions")
     led.ok("C01-R7", f"{walker.qual} ▸ callers", where(walker, walker.node), f"only the walker itself and {sorted(m.name for m in pathway_fns)} call it")
